@@ -1059,7 +1059,7 @@ mod nfilter {
         }
 
         fn wait_built(&self, hash: &Byte32) -> bool {
-            for _ in 0..4000 {
+            for _ in 0..12000 {
                 if self.node().store().get_block_filter_hash(hash).is_some() {
                     return true;
                 }
@@ -1105,7 +1105,7 @@ mod nfilter {
                     out.count("sync");
                     let tip_hash = self.node().tip_hash();
                     if !self.wait_built(&tip_hash) {
-                        out.oracle_fail("filter-never-built", &format!("{line}: no filter for the tip after 20 s"));
+                        out.oracle_fail("filter-never-built", &format!("{line}: no filter for the tip after 60 s"));
                     }
                     // the property on the node's store: every main-chain block has a filter, hashes chain
                     let store = self.node().store();
